@@ -530,7 +530,7 @@ impl Property for C14 {
         400
     }
     fn quick_cases(&self) -> u64 {
-        300_000
+        3_000_000
     }
     fn describe(&self, bytes: &[u8]) -> J {
         let c = decode(bytes);
